@@ -18,7 +18,7 @@ import ChibiVerif.Props.C20
 
 namespace ChibiVerif.Findings.C20
 open ChibiVerif ChibiVerif.Codegen ChibiVerif.Effect ChibiVerif.Asm ChibiVerif.Ast
-open ChibiVerif.Lemmas.C20 ChibiVerif.Props.C20
+open ChibiVerif.Lemmas.C20 ChibiVerif.C20Scope ChibiVerif.Props.C20
 
 def tInt : Ty := ⟨0, .int, 4, 4, false, false, -1, 0, -1, false, false, false, -1, [], []⟩
 def tLD : Ty := { tInt with id := 1, kind := .ldouble, size := 16, align := 16 }
